@@ -237,6 +237,28 @@ fn c18_rtt_sample_sets_ring_of_current_address() {
 }
 
 // ---- priority broadcast targets ----------------------------------------------------------------
+/// ring0()'s per-member filter (the closure, sliced): a member is a priority target ⟺ it is in the
+/// asked-for cluster and its ring is 0; the target is its CURRENT address.  All u16 clusters, all
+/// u8 rings.  (ring0 itself = states.values().filter_map(this): iterated in the thorough harness.)
+#[kani::proof]
+#[kani::unwind(3)]
+fn c18_ring0_filter_same_cluster_ring0_only() {
+    let asked = ClusterId(kani::any());
+    let cluster = ClusterId(kani::any());
+    let ring: Option<u8> = if kani::any() { Some(kani::any()) } else { None };
+    let addr = any_addr();
+    let (_, t) = any_ts();
+    let mut st = MemberState::new(addr, t, cluster);
+    st.ring = ring;
+    let got = ring0_member_filter(asked, &st);
+    let expect = cluster == asked && ring == Some(0);
+    assert!(got.is_some() == expect, "C18: ring0 target of another cluster or ring, or a same-cluster ring-0 member is not a priority target");
+    if let Some(a) = got {
+        assert!(a == addr, "C18: ring0 yields an address that is not the member's current one");
+    }
+    kani::cover!(got.is_some(), "target");
+    kani::cover!(got.is_none() && ring == Some(0), "ring 0 in another cluster");
+}
 #[kani::proof]
 #[kani::unwind(6)]
 fn c18_ring0_targets_same_cluster_ring0_only() {
